@@ -82,7 +82,7 @@ func genIso() *rapid.Generator[IsoCase] {
 		var act []string
 		na := n(2, 10, "nact")
 		for i := 0; i < na; i++ {
-			switch n(0, 27, "act") {
+			switch n(0, 28, "act") {
 			case 20, 21, 22, 23, 24, 25, 26, 27:
 				d := isoDerive[n(0, len(isoDerive)-1, "derive")]
 				act = append(act, fmt.Sprintf(isoMutate[n(0, len(isoMutate)-1, "mutate")], d))
@@ -125,6 +125,10 @@ func genIso() *rapid.Generator[IsoCase] {
 				act = append(act, "(defmacro shared-mac (&rest xs) ''redefined)")
 			case 18:
 				act = append(act, "(elpspath:?set! shared-vec 0 "+fmt.Sprint(n(10, 19, "av"))+")", "(elpspath:?del! shared-map \"n\")")
+			case 19, 28:
+				// a LIBRARY option switched on in A: the switch belongs to A's
+				// runtime, every other runtime keeps decoding with its own
+				act = append(act, "("+pick("jsonopt", "json:use-exact-integers", "json:use-string-numbers", "json:use-exact-integers")+" true)")
 			default:
 				e := g.expr()
 				act = append(act, "(set 'gx "+e.code+")")
@@ -152,6 +156,9 @@ func genIso() *rapid.Generator[IsoCase] {
 			guardObs("lambda-text", "(format-string \"{}\" (lambda (q) (list q gx)))"),
 			"(defun ds () (debug-stack))", "(ds)",
 			guardObs("sort-literal", "(stable-sort < '(3 1 2))"),
+			guardObs("json-big-int", "(json:load-string \"[9007199254740993, 1.5, 3]\")"),
+			guardObs("json-big-int-type", "(type (json:load-string \"9007199254740993\"))"),
+			guardObs("json-dump-after-load", "(json:dump-string (json:load-string \"[18014398509481985, 2]\"))"),
 			guardObs("own-mutation", "(progn (append! shared-vec 7) (assoc! shared-map \"b\" 1) (length shared-vec))"),
 		}
 		for i, d := range isoDerive {
